@@ -16,7 +16,7 @@ var propC16 = &pProp{
 	level:     "fault_enumeration",
 	rule:      "one evaluation = one simulated Parse call of a real generated parser (kernel code blocks incl. re-entrant parses, simulated pool); per (grammar, input, option set) case the un-cancelled execution is recorded under a large budget and then re-executed with MaxExpressions(n) for every n in [1, N+1] (N = expressions of the reference; sampled above the enumeration bound), each bounded run being compared with the reference: identical when the budget suffices, otherwise nil value, the budget error last, earlier errors a prefix, history exactly the reference events up to tick n, ExprCnt <= n+1, and return within (n+2)*C(G) instrumentation steps; plus runs with a reused Stats value whose count is already beyond the budget; distinct_nontrivial = distinct (grammar, input, options) cases in which at least one bounded run was executed",
 	assume:    []string{"ExprCnt as reported through the Statistics option is the parser's clock; when the caller passes no Statistics the ticks are calibrated by a twin run that only adds that option; variants without Statistics (-optimize-parser) take their ticks from the same grammar generated without that flag when the two produce the same history (otherwise: prefix/monotonicity and the one-expression-per-code-block bound only)", "C(G) = 400 + 8*(widest expression) + 40*(state keys+4) steps per expression is generous: the largest observed ratio is reported as max_steps_per_expr"},
-	bias:      specBias{nullableLoops: 55, leftRec: 12, states: 45, preds: 60, actions: 80, throws: 30, optimized: 30, display: 10, unicode: 40},
+	bias:      specBias{nullableLoops: 55, leftRec: 12, states: 45, preds: 60, actions: 80, throws: 30, optimized: 30, display: 10, unicode: 40, topLoop: 5},
 	tier: func(tier string) pParams {
 		if tier == "thorough" {
 			return pParams{batches: 6, grammars: 400, inputs: 8, optSets: 3, enumMax: 400}
@@ -58,6 +58,17 @@ var propC16 = &pProp{
 					Call: parsersim.Call{Input: in, Opts: o, Plan: plan},
 					Pool: drawPool(r, false), Seed: r.u64(), RefBudget: uint64(400 + r.intn(1200)), EnumMax: p.enumMax, TwinParser: gp.Twin})
 			}
+		}
+		if gp.G.IsTopLoop() {
+			// a long parse: tens of thousands of expressions, so that budgets (and
+			// the counters behind them) pass 2^15 and 2^16
+			o := drawOpts(r, gp, 30, 12)
+			o.Debug = false
+			plan := drawPlan(r, gp.HasState)
+			plan.MaxEvents = 40000
+			reqs = append(reqs, &parsersim.Request{ID: fmt.Sprintf("c16-%s-long", gp.Name), Kind: "c16", Parser: gp.Name,
+				Call: parsersim.Call{Input: gp.G.SampleLongInput(r2{r}, []int{800, 2500, 5000}[r.intn(3)]), Opts: o, Plan: plan},
+				Pool: drawPool(r, false), Seed: r.u64(), RefBudget: uint64(150000 + r.intn(200000)), EnumMax: 110, TwinParser: gp.Twin})
 		}
 		return reqs
 	},
